@@ -55,6 +55,7 @@ enum CallKind {
     Muts(Strm<MutableItem>),
     Recent(Fut<Option<MutableItem>>),
     Boot(Fut<bool>),
+    ToBoot(Fut<Vec<String>>),
 }
 
 pub struct Call {
@@ -296,6 +297,18 @@ impl NodeStream {
                     Some(CallKind::Nodes(f)) => {
                         if let Poll::Ready(r) = f.as_mut().poll(&mut cx) {
                             events.push(format!("c{no}:nodes:{}", nodes_s(&r)));
+                            finished = true;
+                        }
+                    }
+                    Some(CallKind::ToBoot(f)) => {
+                        if let Poll::Ready(l) = f.as_mut().poll(&mut cx) {
+                            // a set on the implementation side: shown sorted, in the harness's address notation
+                            let mut addrs: Vec<String> = l.iter().filter_map(|x| x.parse::<SocketAddrV4>().ok()).map(|a| addr_s(&a)).collect();
+                            if addrs.len() != l.len() {
+                                bad.push(format!("to_bootstrap yielded something that is not an IPv4 socket address: {:?}", l));
+                            }
+                            addrs.sort();
+                            events.push(format!("c{no}:bootstrap:{}", addrs.join(",")));
                             finished = true;
                         }
                     }
@@ -1036,6 +1049,7 @@ impl Stream for NodeStream {
                         }
                     }
                     "bootstrapped" => CallKind::Boot(Box::pin(async move { d.bootstrapped().await })),
+                    "to_bootstrap" => CallKind::ToBoot(Box::pin(async move { d.to_bootstrap().await })),
                     "find_node" => {
                         let target = id_of(kv(toks, "t").expect("t"));
                         CallKind::Nodes(Box::pin(async move { d.find_node(target).await }))
@@ -1794,7 +1808,7 @@ pub fn chaos_round(out: &mut Out, rng: &mut Rng, t0: u64, round: usize) {
             8 | 9 => format!("get_mut k={pk} salt={} seq={}", sh(salt), if rng.chance(1, 3) { rng.below(5).to_string() } else { "none".into() }),
             10 => sannounce_call(&t, 5),
             11 => format!("get_speers ih={}", hex(t.as_bytes())),
-            12 => "info".to_string(),
+            12 => if rng.chance(1, 2) { "info".to_string() } else { "to_bootstrap".to_string() },
             _ => format!("find_node t={}", hex(vt.as_bytes())),
         };
         d.api(call);
@@ -1882,6 +1896,7 @@ pub fn run(out: &mut Out, seed: u64, thorough: bool, replay: Option<&str>) {
         d.settle(20 * SEC, 10 * MS);
         d.api(format!("get_mut k={} salt={} seq=none", hex(key_from_seed(9).verifying_key().as_bytes()), hex(b"salt")));
         d.api("info".into());
+        d.api("to_bootstrap".into());
         d.settle(20 * SEC, 10 * MS);
         // a minute later everything is still found (a signed announcement is older than the 45 s
         // window that only storing nodes apply to new announcements)
@@ -2430,6 +2445,10 @@ pub fn run(out: &mut Out, seed: u64, thorough: bool, replay: Option<&str>) {
             d.run_for(60 * SEC, SEC);
             if minute % 5 == 4 {
                 d.run("snap".into());
+            }
+            if minute % 7 == 2 {
+                // the bootstrap list for the next session: the non-stale entries of both tables
+                d.api("to_bootstrap".into());
             }
             if minute % 11 == 3 {
                 let t = Id::from_bytes(d.rng.id20()).expect("id");
